@@ -124,6 +124,17 @@ def pool_check(ctx):
         open(p, 'w').write(racelog)
         viol.append(dict(property='C14', kind='data race reported by the Go race detector', version='', input='8 goroutines driving all exported functions of all four packages',
                          expected='no race', observed=racelog[:1500], replay=dict(mode='race', report=p)))
+    # (h) parse-and-hold: results kept by their owners while every CPU parses valid and failing vectors; plain and -race build
+    for exe, label in ((None, 'held parse results re-read under concurrency'), (race, 'the same under the race detector')):
+        sh = ctx.harness('conchold', prop='C14', aux=json.dumps(tabs), exe=exe, n=(400000 if thorough else 60000) // (1 if exe is None else 4),
+                         env={'GORACE': 'exitcode=0 halt_on_error=0'})
+        viol += sh['violations']
+        cov['compared'][label] = sh['evaluations']
+        if 'DATA RACE' in sh.get('_stderr', ''):
+            p = os.path.join(core.EVID, 'race-report-C14.txt')
+            open(p, 'w').write(sh['_stderr'])
+            viol.append(dict(property='C14', kind='data race reported by the Go race detector', version='', input='every CPU parsing valid and failing vectors and re-reading the results it holds',
+                             expected='no race', observed=sh['_stderr'][:1500], replay=dict(mode='race', report=p)))
     cov.update(traces_validated_against_impl=nsched + nhist + st['events'], evaluations=nsched + nhist + st['events'],
                distinct_nontrivial=nsched + nhist,
                rule='TLC explores every interleaving of 2 (thorough: 3) v2.0 ParseVector calls around the pooled buffer at single-step '
